@@ -248,10 +248,11 @@ class UpnpFactory:
         allowed_values: Optional[List[str]] = None
         allowed_value_list_el = state_variable_el.find("service:allowedValueList", NS)
         if allowed_value_list_el is not None:
+            # an allowedValue without text is the empty string (for string types)
             allowed_values = [
-                v.text
+                v.text or ""
                 for v in allowed_value_list_el.findall("service:allowedValue", NS)
-                if v.text is not None
+                if v.text is not None or data_type_mapping["type"] is str
             ]
 
         type_info = StateVariableTypeInfo(
